@@ -162,7 +162,7 @@ def main(argv):
     only = set(argv[6].split(",")) if len(argv) > 6 and argv[6] else None
     shard = int(shard)
     nshards = int(nshards)
-    result = {"shard": shard, "hashseed": os.environ.get("PYTHONHASHSEED"), "clauses": {}, "error": None}
+    result = {"shard": shard, "hashseed": os.environ.get("PYTHONHASHSEED"), "ambient": os.environ.get("PV_AMBIENT", "default"), "clauses": {}, "error": None}
     os.environ["PV_TIER"] = tier
     try:
         from .core import derive_seed
